@@ -389,6 +389,11 @@ class SGen(L.LGen):
             self.count("setblock_filter:" + FILTERS[f])
             nargs = {F_DEFAULT: 1, F_REPLACE: 2}.get(f, 0)
             args = [self.expr(sc, 1) for _ in range(nargs)]
+            if f == F_DEFAULT:
+                # the model has no Undefined OBJECT (an undefined name is the empty plain string): since a9b4b34 a filtered
+                # set block escapes only str results, so `default(<undefined name>)` would leave an Undefined, which the
+                # model cannot tell from "" (-> Markup("")).  Keep the default value a string: (e ~ "")
+                args = [("C", args[0], ("L", ""))]
             b, _, _ = self.body(sc, d - 1, 2)
             return ("G", x, f, args, b), vs + [x], ms
         if d > 0 and k < 0.13:
